@@ -14,6 +14,12 @@ bnp.change_encoding, .to_string() / .tolist() / str() / from_encoded_array):
               as_encoded_array(x, T), T.encode(x), change_encoding(x, T) either raise or return data that decodes to
               the same text (same rows); change_encoding (documented as decode-then-encode) must succeed when every
               letter is in T's alphabet.
+  retarget on views
+              the same three calls when the source is a NOT-YET-FLATTENED VIEW left by an earlier indexing step
+              (a[::-1], a[idx], a[mask], a[1:4], a[::2], a[:, 1:], chains of them): a larger array is built and indexed,
+              the view is handed over without being observed; the expected rows are plain Python list indexing
+              (refmodels/alphabets.apply_view).  A failure that a freshly built array of the same text shows too is
+              reported under the plain retarget signature, one that only the view shows under retarget-view:...
   numeric     offset encodings (quality / digit / cigar length): decode(encode(t)) == t, encode(t)[i] == t[i] - min.
   observers   all decode observers agree with the upper-cased text for the full alphabet in both cases.
 
@@ -24,8 +30,8 @@ import itertools
 import time
 
 from .common import Collector
-from .refmodels.alphabets import (ALPHABETS, ALIASES, alphabet_bytes, valid, all_valid, expected_text,
-                                  foreign_bytes, classify_foreign)
+from .refmodels.alphabets import (ALPHABETS, ALIASES, alphabet_bytes, is_letter_lower, valid, all_valid, expected_text,
+                                  foreign_bytes, classify_foreign, apply_view, apply_view_flat)
 
 ENC_NAMES = list(ALPHABETS)
 NUMERIC = {"Quality": 33, "NumDigit": 48, "CigarLen": 0}
@@ -272,6 +278,14 @@ def eval_retarget(col, case):
     if ([x.to_string()] if is_flat else x.tolist()) != exp:
         return          # the source itself is mis-encoded: reported by the encode contract, nothing to re-target
     col.case(case, nontrivial=sum(lens) > 0, contract="retarget:" + fn)
+    v = _retarget_verdict(fn, x, T, rows, lens, exp, is_flat, src, dst)
+    if v is not None:
+        col.fail(_retarget_signature(fn, v[0]), case, v[1])
+
+
+def _retarget_verdict(fn, x, T, rows, lens, exp, is_flat, src, dst):
+    """the retarget contract on one prepared source x: None when it holds, else (failure class, message)"""
+    import bionumpy as bnp
     talpha = spec_alphabet(dst)
     try:
         if fn == "as_encoded_array":
@@ -283,24 +297,29 @@ def eval_retarget(col, case):
     except Exception as e:
         if fn == "change_encoding":
             inside = talpha is None or all_valid([b for r_ in rows for b in r_], talpha)
-            col.check(not inside, "change_encoding:raises-although-text-in-target-alphabet:%s" % type(e).__name__, case,
-                      "%s -> %s: %r raised %s: %s" % (src, dst, exp, type(e).__name__, str(e)[:200]))
-        return
+            if inside:
+                return ("raises-although-text-in-target-alphabet:%s" % type(e).__name__,
+                        "%s -> %s: %r raised %s: %s" % (src, dst, exp, type(e).__name__, str(e)[:200]))
+        return None
     try:
         got = [text_flat(r)] if is_flat else rows_of(r, lens)
     except Exception as e:
         # the call returned (did not raise), so the data it yielded must decode to the same text; it does not decode at all
-        col.fail("retarget:%s:result-not-decodable:%s" % (fn, type(e).__name__), case,
-                 "%s -> %s: %r was accepted but the result cannot be decoded: %s" % (src, dst, exp, str(e)[:200]))
-        return
+        return ("result-not-decodable:%s" % type(e).__name__,
+                "%s -> %s: %r was accepted but the result cannot be decoded: %s" % (src, dst, exp, str(e)[:200]))
     h = how_differs(got, exp)
     if h is None:
-        return
+        return None
     if h in ("row-boundaries", "not-text"):
-        col.fail("retarget:%s:rows-changed" % fn, case, "%s -> %s: %r became %r" % (src, dst, exp, got))
-        return
-    col.fail("retarget:%s:different-letters:%s" % (fn, _classify_retarget(rows, exp, got, src, talpha, fn)), case,
-             "%s -> %s: %r silently became %r" % (src, dst, exp, got))
+        return ("rows-changed", "%s -> %s: %r became %r" % (src, dst, exp, got))
+    return ("different-letters:%s" % _classify_retarget(rows, exp, got, src, talpha, fn),
+            "%s -> %s: %r silently became %r" % (src, dst, exp, got))
+
+
+def _retarget_signature(fn, cls):
+    if cls.startswith("raises-although-text-in-target-alphabet:"):
+        return "change_encoding:" + cls
+    return "retarget:%s:%s" % (fn, cls)
 
 
 def _classify_retarget(rows, exp, got, src, talpha, fn):
@@ -348,6 +367,143 @@ def eval_retarget_other(col, case):
         return
     col.check(got == exp, "retarget:%s:different-letters:from-%s-encoding" % (case["fn"], case["src"]), case,
               "%r silently became %r under %s" % (exp, got, case["dst"]))
+
+
+# ----------------------------------------------------------------------------------------------- contract: retarget on views
+def _subscript(step):
+    import numpy as np
+    spec = step["rows"]
+    kind = spec[0]
+    if kind == "all":
+        k = slice(None)
+    elif kind == "slice":
+        k = slice(spec[1], spec[2], spec[3])
+    elif kind == "list":
+        k = list(spec[1])
+    elif kind == "array":
+        k = np.array(spec[1], dtype=int)
+    elif kind == "mask":
+        k = np.array(spec[1], dtype=bool)
+    else:
+        raise KeyError(kind)
+    if step.get("cols") is not None:
+        k = (k, slice(step["cols"][0], step["cols"][1]))
+    return k
+
+
+def build_source(src, rows, is_flat):
+    """a freshly built, contiguous array with encoding `src` holding `rows` (one flat row when is_flat)"""
+    import numpy as np
+    import bionumpy as bnp
+    from bionumpy.encoded_array import EncodedArray, EncodedRaggedArray, BaseEncoding
+    if src == "Base":
+        flat = np.array([b for r in rows for b in r], dtype=np.uint8)
+        if is_flat:
+            return EncodedArray(flat, BaseEncoding)
+        return EncodedRaggedArray(EncodedArray(flat, BaseEncoding), [len(r) for r in rows])
+    S = get_enc(src)
+    return bnp.as_encoded_array(s_of(rows[0]), S) if is_flat else bnp.as_encoded_array([s_of(r) for r in rows], S)
+
+
+def take_view(x, steps):
+    """the earlier indexing steps; nothing of the result is read here"""
+    for st in steps:
+        x = x[_subscript(st)]
+    return x
+
+
+_PROBE = {}
+
+
+def _source_probe(src, big, steps, is_flat, source_text):
+    """On a SEPARATE copy: 'ok' when the freshly built array reads back as `big` and the view of it as `source_text`;
+    'source' when the plain array is already mis-encoded (the encode contract reports that), else a message."""
+    import json
+    key = json.dumps([src, big, steps, is_flat])
+    if key not in _PROBE:
+        if len(_PROBE) > 20000:
+            _PROBE.clear()
+        read = (lambda a: [a.to_string()]) if is_flat else (lambda a: a.tolist())
+        full = [s_of(r) if src == "Base" else expected_text(r) for r in big]
+        try:
+            if read(build_source(src, big, is_flat)) != full:
+                res = "source"
+            else:
+                got = read(take_view(build_source(src, big, is_flat), steps))
+                res = "ok" if got == source_text else "view reads %r, list indexing gives %r" % (got, source_text)
+        except Exception as e:
+            res = "building / reading the view raised %s: %s" % (type(e).__name__, str(e)[:200])
+        _PROBE[key] = res
+    return _PROBE[key]
+
+
+def eval_retarget_view(col, case):
+    """case: {"k":"retarget_view","src":S,"dst":T,"fn":..,"big":[[bytes],..] | "bigdata":[bytes], "view":[steps]}
+    the source handed to fn is  take_view(<fresh array of big>, view)  and has not been read before the call"""
+    src, dst, fn, steps = case["src"], case["dst"], case["fn"], case["view"]
+    T = get_enc(dst)
+    is_flat = "bigdata" in case
+    big = [list(case["bigdata"])] if is_flat else [list(r) for r in case["big"]]
+    rows = [apply_view_flat(big[0], steps)] if is_flat else apply_view(big, steps)
+    lens = [len(r) for r in rows]
+    # base-encoded text keeps its case unless the target is an alphabet encoding (the encode contract: upper-cased)
+    keeps_case = src == "Base" and spec_alphabet(dst) is None
+    exp = [s_of(r) if keeps_case else expected_text(r) for r in rows]
+    probe = _source_probe(src, big, steps, is_flat, [s_of(r) if src == "Base" else expected_text(r) for r in rows])
+    if probe == "source":
+        return          # as in eval_retarget: reported by the encode contract
+    if probe != "ok":
+        col.case(case, contract="retarget-view:source")
+        col.fail("retarget-view:source-view-differs-from-list-indexing", case, "%s %r view %r: %s" % (src, big, steps, probe))
+        return
+    x = take_view(build_source(src, big, is_flat), steps)
+    pending = (not is_flat) and getattr(x, "is_contigous", None) is False      # attribute read only, flattens nothing
+    col.case(case, nontrivial=sum(lens) > 0 and (pending or is_flat),
+             contract="retarget-view:%s:%s" % (fn, "flat-strided" if is_flat else "ragged-unflattened" if pending
+                                               else "ragged-already-contiguous"))
+    v = _retarget_verdict(fn, x, T, rows, lens, exp, is_flat, src, dst)
+    if v is None:
+        return
+    # is it the view?  the same text, freshly built and contiguous
+    plain = {"k": "retarget", "src": src, "dst": dst, "fn": fn}
+    plain["data" if is_flat else "rows"] = rows[0] if is_flat else rows
+    c = _safe_verdict(fn, build_source(src, rows, is_flat), T, rows, lens, exp, is_flat, src, dst)
+    if c is not None:
+        # not specific to views: the plain class, and the plain case when eval_retarget expects the same text for it
+        same_exp = not keeps_case or all(not is_letter_lower(b) for r in rows for b in r)
+        col.fail(_retarget_signature(fn, c[0]), plain if same_exp else case, c[1])
+        return
+    cls = v[0]
+    if cls.startswith(("rows-changed", "different-letters")):
+        cls = "wrong-text-only-for-views"
+    col.fail("retarget-view:%s:%s" % (fn, cls), case,
+             "source = <%s array of %r>%s (not read before the call); a fresh array of the same text is handled correctly; %s"
+             % (src, [s_of(r) for r in big], _view_str(steps), v[1]))
+
+
+def _safe_verdict(*a):
+    try:
+        return _retarget_verdict(*a)
+    except Exception:
+        return None
+
+
+def _view_str(steps):
+    out = ""
+    for st in steps:
+        sp = st["rows"]
+        if sp[0] == "all":
+            r = ":"
+        elif sp[0] == "slice":
+            r = ":".join("" if v is None else str(v) for v in sp[1:4])
+        elif sp[0] == "mask":
+            r = "mask%r" % (sp[1],)
+        else:
+            r = ("%r" if sp[0] == "list" else "array(%r)") % (sp[1],)
+        if st.get("cols") is not None:
+            r += ", " + ":".join("" if v is None else str(v) for v in st["cols"])
+        out += "[%s]" % r
+    return out
 
 
 # ----------------------------------------------------------------------------------------------- contract: numeric
@@ -446,7 +602,7 @@ def _cut(t, lens):
     return out + ([t[o:]] if o != len(t) else [])
 
 
-EVAL = {"enc": eval_enc, "retarget": eval_retarget, "retarget_other": eval_retarget_other, "numeric": eval_numeric,
+EVAL = {"enc": eval_enc, "retarget": eval_retarget, "retarget_view": eval_retarget_view, "retarget_other": eval_retarget_other, "numeric": eval_numeric,
         "observers": eval_observers}
 
 
